@@ -8,6 +8,7 @@ import (
 	"net/http/httptest"
 	"net/url"
 	"os"
+	"sort"
 	"strconv"
 	"strings"
 	"sync"
@@ -169,6 +170,61 @@ func matchFinish(s *Summary) {
 	if n, _ := strconv.Atoi(os.Getenv("VERIF_MATCH_MANY")); n > 0 {
 		matchMany(s, n)
 	}
+	if os.Getenv("VERIF_MATCH_CONC") == "1" {
+		matchConcurrent(s)
+	}
+}
+
+// matchConcurrent: selection is a function of the table and the request - also when many lookups run at the same time
+// (lookups are read-only; routes with paths of different lengths, static and dynamic, with and without a cache)
+func matchConcurrent(s *Summary) {
+	for _, opts := range [][]func(*rux.Router){{}, {rux.CachingWithNum(3)}} {
+		r := newRouter(opts...)
+		paths := []string{"/s", "/page3", "/page7", "/a/longer/static/path", "/x/y"}
+		want := map[string]string{}
+		for _, p := range paths {
+			r.GET(p, nopHandler)
+			want[p] = p
+		}
+		r.GET("/{one}", nopHandler)
+		r.GET("/d/{id}/e", nopHandler)
+		want["/other"], want["/d/7/e"], want["/d/12345/e"], want["/nope/x/y/z"] = "/{one}", "/d/{id}/e", "/d/{id}/e", ""
+		var keys []string
+		for k := range want {
+			keys = append(keys, k)
+		}
+		sort.Strings(keys)
+		var wg sync.WaitGroup
+		var mu sync.Mutex
+		bad := ""
+		for g := 0; g < 8; g++ {
+			wg.Add(1)
+			go func(g int) {
+				defer wg.Done()
+				for i := 0; i < 20000; i++ {
+					k := keys[(i*7+g*3)%len(keys)]
+					rt, _, _ := r.Match("GET", k)
+					got := ""
+					if rt != nil {
+						got = rt.Path()
+					}
+					if got != want[k] {
+						mu.Lock()
+						if bad == "" {
+							bad = fmt.Sprintf("GET %s selected %q while 8 goroutines look routes up, alone it selects %q", k, got, want[k])
+						}
+						mu.Unlock()
+						return
+					}
+				}
+			}(g)
+		}
+		wg.Wait()
+		s.Compared += 8 * 20000
+		if bad != "" {
+			s.mismatch(map[string]any{"kind": "match", "aspect": "selection", "what": bad}, nil)
+		}
+	}
 }
 
 // matchMany: very many DISTINCT URLs on a router whose cache is as large as it can be (the model's path universe is small;
@@ -323,6 +379,9 @@ func matchRunTable(st *matchState, t matchTable) {
 					b.seenParams = map[string]string{}
 					for k, v := range c.Params {
 						b.seenParams[k] = v
+					}
+					if c.Params != nil { // the map is the request's own: what the handler adds to it is gone with the request
+						c.Params["added-by-handler"] = "1"
 					}
 				}))
 			}()
